@@ -110,6 +110,26 @@ def _distinct_tie_names(ctx):
     tie_broken._c04 = True
     ctx.tie_broken = tie_broken
 
+    # one replay file per failing CASE (not per fingerprint): two different inputs that break the same clause of the
+    # same stream keep their own files; the fingerprint (what known-findings match on) stays `stream:clause`
+    orig_violation = ctx.violation
+
+    def violation(fingerprint, what, replay_obj, found_input):
+        import json
+        n = len(ctx.violations)
+        orig_violation(fingerprint, what, replay_obj, found_input)
+        if len(ctx.violations) > n and isinstance(replay_obj, dict) and replay_obj.get("ops"):
+            v = ctx.violations[-1]
+            h = hashlib.sha1(json.dumps(replay_obj.get("ops")).encode()).hexdigest()[:8]
+            new_path = v["path"][:-5] + "-" + h + ".json"
+            try:
+                os.replace(v["path"], new_path)
+                v["path"] = new_path
+            except OSError:
+                pass
+
+    ctx.violation = violation
+
 
 def run(ctx):
     _distinct_tie_names(ctx)
